@@ -153,6 +153,9 @@ fn get_disambiguating_chars(
         (true, true) => to_algebraic(chess_move.from_square()).to_string(),
         (true, false) => starting_rank_char.to_string(),
         (false, true) => starting_file_char.to_string(),
+        // Another like piece can reach the square from a different file and
+        // rank: the file is enough to tell them apart.
+        (false, false) if !ambiguous_moves.is_empty() => starting_file_char.to_string(),
         (false, false) => EMPTY_STRING.to_string(),
     }
 }
